@@ -96,7 +96,8 @@ type interpreter struct {
 	poisoned   map[*ssa.Global]string     // globals left unassigned by a failed init -> reason
 	seen       map[*ssa.Function]struct{} // functions executed (for evidence)
 	intr       map[*ssa.Function]externalFn
-	initStores map[*ssa.Global]bool // globals stored during the running init
+	cov        map[*ssa.Function][]bool // block coverage (GOSYM_COVERAGE), nil when off
+	initStores map[*ssa.Global]bool     // globals stored during the running init
 	depth      int
 	clock      int64  // fake monotone clock (ns)
 	randCount  int    // rand.String calls on this path
@@ -123,6 +124,7 @@ type frame struct {
 	panic            interface{}
 	phitemps         []value // temporaries for parallel phi assignment
 	cur              ssa.Instruction
+	cov              []bool // block coverage of fn (nil: not recorded)
 }
 
 func (fr *frame) get(key ssa.Value) value {
@@ -545,6 +547,9 @@ func callSSA(i *interpreter, caller *frame, callpos token.Pos, fn *ssa.Function,
 		caller: caller, // for panic/recover
 		fn:     fn,
 	}
+	if i.cov != nil {
+		fr.cov = i.covFor(fn)
+	}
 	i.depth++
 	defer func() { i.depth-- }()
 	if i.depth > 2000 {
@@ -655,6 +660,9 @@ func runFrame(fr *frame) {
 			if fr.i.ps.steps > fr.i.w.e.Cfg.StepLimit {
 				panic(pathEnd{"step-limit"})
 			}
+		}
+		if fr.cov != nil && fr.block.Index < len(fr.cov) {
+			fr.cov[fr.block.Index] = true
 		}
 		nonPhis := executePhis(fr)
 		for _, instr := range nonPhis {
